@@ -43,7 +43,7 @@ def check_measure(case):
             pw = [(1.0, dense.run(mops, n))]
         else:
             pw = [(w, dense.run(mops, n, psi=psi)) for (w, psi) in comps]
-        counts = tomo.exact_counts(pw, n, rng)
+        counts = tomo.rescale_counts(tomo.exact_counts(pw, n, rng), case.get("zero_seed", 0) // 2)
         fitter = L.tomo.StabilizerMeasurementFitter(tomo.FakeResult([counts], single_as_dict=bool(case.get("zero_seed", 0) % 2)), qc)
         ev_raw = fitter.expectation_values()
     except dense.UnknownGate as e:
